@@ -165,7 +165,9 @@ def run(case: t.Sequence[t.Dict[str, t.Any]], ctx: Ctx) -> t.List[Violation]:
         except BaseException:
             pass
         else:
-            return Violation(f"{side}:call-with-unencodable-argument-accepted", f"step {i} {step!r}: {meth}({kw!r})")
+            # a library that can encode such text after all is not judged here (C01/C03 judge the bytes); the case ends
+            ctx.event("call-with-unencodable-argument-accepted:case-ends")
+            return Violation("", "")
         if history._peek(so) != before:
             return Violation(f"{side}:failed-call-left-bytes", f"step {i} {step!r}: {meth}({kw!r})")
         st1 = sess.state(so)
@@ -187,8 +189,9 @@ def run(case: t.Sequence[t.Dict[str, t.Any]], ctx: Ctx) -> t.List[Violation]:
             if step.get("bad-first") and not blind and what != "unbind":
                 v = failed_attempt(J.c, "client", meth, history.client_call_spec(what, step["v"], True)[1], i, step)
                 if v is not None:
-                    out.append(v)
-                    break
+                    if v.key:
+                        out.append(v)
+                    return out
             try:
                 r = getattr(J.c, meth)(**kw)
             except LDAPError as e:
@@ -244,8 +247,9 @@ def run(case: t.Sequence[t.Dict[str, t.Any]], ctx: Ctx) -> t.List[Violation]:
                 if step.get("bad-first") and not blind:
                     v = failed_attempt(J.s, "server", meth, history.server_call_spec(kind, mid, step["code"], step["v"], True)[1], i, step)
                     if v is not None:
-                        out.append(v)
-                        break
+                        if v.key:
+                            out.append(v)
+                        return out
                 try:
                     getattr(J.s, meth)(**kw)
                 except LDAPError as e:
